@@ -1,7 +1,7 @@
 """C05 -- point encoding: lengths, flag bits, field order and sort flag of the four
 encoders, and position-wise agreement with the decoders (shared decision tables)."""
 import exp
-from exp import Agg, Int, KBits, Lin, Ref, TOP
+from exp import Agg, Int, KBits, Lin, Opt, Ref, TOP
 from facts import callee
 from props import common
 from props import c04
@@ -10,67 +10,61 @@ PROP = 'C05'
 ENC = 'EncodedPoint'
 
 
+class EByte(KBits):
+    """Byte j of the canonical big-endian representation of a coordinate (src), possibly with flag bits or-ed in."""
+    __slots__ = ('src', 'j')
+
+    def __init__(self, src, j, mask=0, val=0, cleared=0):
+        KBits.__init__(self, mask, val, cleared)
+        self.src, self.j = src, j
+
+    def __repr__(self):
+        return 'E(%s,%d%s)' % (self.src, self.j, ',mask=%#x,val=%#x' % (self.mask, self.val) if self.mask else '')
+
+
 class EncRun:
+    """from_affine interpreted over provenance bytes: `into_repr().write_be(writer)` writes the 48 bytes of that
+    coordinate at the writer's current position (std's Write for &mut [u8] advances the slice), flag bits are or-ed in
+    with known-bits arithmetic.  Any arrangement of the writes and of the flag updates gives the same byte array."""
+
     def __init__(self, fx, path, g):
         self.fx = fx
         self.path = path
         self.g = g
-        self.writes = []
+
+    def binop_hook(self, op, a, b):
+        if b is None:
+            return None
+        ea, eb = isinstance(a, EByte), isinstance(b, EByte)
+        if ea == eb:
+            return None
+        x, k = (a, b) if ea else (b, a)
+        if isinstance(k, Int) and op in ('BitOr', 'BitAnd'):
+            r = exp.kbits_binop(op, x, k)
+            if isinstance(r, KBits):
+                return EByte(x.src, x.j, r.mask, r.val, r.cleared)
+            return r
+        return None
 
     def transfer(self, I, fr, t, c, pth):
+        import stdmodel
         name = c.get('name')
         d = c['def']
-        res = c.get('res') or d
         args = t['args']
         dest = t['dest']
         where = t['span']
         if name == 'is_zero' and c.get('trait') == 'CurveAffine':
-            fr.storev(dest, ('bool', ('is_identity', where)))
-            return True
-        if name == 'index_mut' and res.startswith('std::array::<impl std::ops::IndexMut'):
-            tgt = fr.ref_place_of(args[0])
-            rng_ty = ''
-            from facts import op_place
-            p = op_place(args[1])
-            if p is not None and not p['p']:
-                rng_ty = fr.body.local_ty(p['l'])
-            if isinstance(tgt, dict) and rng_ty.endswith('RangeFull'):
-                root, proj = fr.root_of(tgt)
-                fr.storev(dest, Ref(root, proj))
-                return True
-            fr.storev(dest, TOP)
-            pth.events.append(('writer-unrecognised', where))
+            fr.storev(dest, ('bool', ('is_identity',)))
             return True
         if name == 'into_repr' and c.get('trait') == 'ff::PrimeField':
             fr.storev(dest, ('repr_of', fr.deref_operand(args[0])))
             return True
-        if name == 'write_be' and c.get('trait') == 'ff::PrimeFieldRepr':
+        if name == 'write_be' and c.get('trait') == 'ff::PrimeFieldRepr' and len(args) == 2:
             v = fr.deref_operand(args[0])
-            w = fr.deref_operand(args[1])
-            k = sum(1 for e in pth.events if e[0] == 'write_be')
-            pth.events.append(('write_be', k, v, where))
-            if isinstance(w, Ref):
-                buf = fr._project(fr.store.get(w.root, TOP), w.proj)
-                if isinstance(buf, Agg):
-                    items = list(buf.items)
-                    lo = 48 * k
-                    for i in range(lo, min(lo + 48, len(items))):
-                        items[i] = KBits(0, 0)
-                    if lo < len(items):
-                        # canonical Fq representation: < 2^381, top three bits of its first byte are clear
-                        items[lo] = KBits(0xe0, 0)
-                    if lo + 48 > len(items):
-                        pth.events.append(('write-overflows-buffer', k, where))
-                    cur = fr.store.get(w.root)
-                    fr.store[w.root] = fr._update(cur, list(w.proj), Agg(items, buf.kind))
-                else:
-                    pth.events.append(('writer-unrecognised', where))
-            else:
-                pth.events.append(('writer-unrecognised', where))
-            fr.storev(dest, ('io_ok',))
-            return True
-        if name == 'unwrap' and d.startswith('std::result::Result'):
-            fr.storev(dest, fr.operand(args[0]))
+            src = v[1] if isinstance(v, tuple) and v and v[0] == 'repr_of' else ('?', repr(v))
+            okw = self.write_to(I, fr, args[1], src, 48)
+            pth.events.append(('write_be', src, okw, where))
+            fr.storev(dest, Opt('none' if okw else 'some', Agg([]), ('write_be',)))
             return True
         if name == 'negate' and c.get('trait') == 'ff::Field':
             v = fr.deref_operand(args[0])
@@ -79,9 +73,47 @@ class EncRun:
         if c.get('trait') == 'std::cmp::PartialOrd' and name in ('gt', 'lt', 'ge', 'le'):
             a = fr.deref_operand(args[0])
             b = fr.deref_operand(args[1])
-            fr.storev(dest, ('bool', (name, a, b, c.get('self_ty'))))
+            fr.storev(dest, ('bool', (name, freeze(a), freeze(b), c.get('self_ty'))))
             return True
-        return False
+        if c.get('trait') == 'std::cmp::Ord' and name == 'cmp':
+            return False
+        return stdmodel.result_transfer(I, fr, t, c, pth)
+
+    def write_to(self, I, fr, op, src, n):
+        """`op` is `&mut W`, W = &mut [u8]: write n provenance bytes at the view's start and advance it."""
+        import stdmodel
+        rp = stdmodel.ref_of(fr, op)
+        if rp is None:
+            return False
+        cur = fr._project(fr.store.get(rp[0], TOP), rp[1])
+        if not isinstance(cur, Ref):
+            return False
+        v = cur
+        for _ in range(6):
+            tgt = fr._project(fr.store.get(v.root, TOP), [e for e in v.proj if e[0] != 'off'])
+            if isinstance(tgt, Ref):
+                v = Ref(tgt.root, list(tgt.proj) + [e for e in v.proj if e[0] == 'off'])
+            else:
+                break
+        base = [e for e in v.proj if e[0] != 'off']
+        arr = fr._project(fr.store.get(v.root, TOP), base)
+        if not isinstance(arr, Agg):
+            return False
+        lo, hi = 0, len(arr.items)
+        for e in v.proj:
+            if e[0] == 'off':
+                lo += e[1]
+                if len(e) > 2 and e[2] is not None:
+                    hi = min(hi, lo + e[2])
+        if hi - lo < n:
+            return False
+        for k in range(n):
+            # canonical representation (< q < 2^381): the top three bits of the first byte are clear
+            nb_ = EByte(src, k, 0xe0, 0) if k == 0 else EByte(src, k)
+            fr.store[v.root] = fr._update(fr.store.get(v.root), list(base) + [['ci', lo + k, 0, False]], nb_)
+        new = Ref(v.root, list(base) + [['off', lo + n, hi - lo - n]])
+        fr.store[rp[0]] = fr._update(fr.store.get(rp[0]), list(rp[1]), new) if rp[1] else new
+        return True
 
     def run(self):
         g = self.g
@@ -92,7 +124,12 @@ class EncRun:
             y = Agg(['y.c0', 'y.c1'], ('bls12_381::fq2::Fq2', 'Fq2'))
         aff = Agg([x, y, ('bool', ('infinity-field',))])
         self.x, self.y = x, y
-        I = exp.Interp(self.fx, 'none', extra_transfer=self.transfer, inline=lambda p: p.endswith('EncodedPoint>::empty'))
+        import inline as INL
+        I = exp.Interp(self.fx, 'none', extra_transfer=self.transfer,
+                       inline=lambda p: p.endswith('EncodedPoint>::empty') or INL.is_private_helper(self.fx, p))
+        I.binop_hook = self.binop_hook
+        I.propagate_hooks = True
+        I.fork_inlined = True
         res = I.run(self.path, [aff])
         self.call_sites = I.call_sites
         return res
@@ -104,7 +141,17 @@ def same(a, b):
     return a == b
 
 
+def freeze(v):
+    if isinstance(v, Agg):
+        return ('agg',) + tuple(freeze(x) for x in v.items)
+    if isinstance(v, (list, tuple)):
+        return tuple(freeze(x) for x in v)
+    return v if isinstance(v, (str, int, bool, type(None))) else repr(v)
+
+
 def rule_encoders(fx, rep):
+    """Truth table over (is the point the identity, y > -y): the whole output array, byte by byte."""
+    import tt
     n = 0
     for name, ty, nbytes, compressed, g, ncoord in c04.DECODERS:
         path = fx.impl_method(ENC, ty, 'from_affine')
@@ -123,67 +170,67 @@ def rule_encoders(fx, rep):
         rep.sites(R.call_sites)
         x, y = R.x, R.y
         if g == 'G1':
-            want_writes = [x] + ([] if compressed else [y])
+            order = [x] + ([] if compressed else [y])
         else:
-            want_writes = [x.items[1], x.items[0]] + ([] if compressed else [y.items[1], y.items[0]])
-        seen_inf = seen_fin = 0
+            order = [x.items[1], x.items[0]] + ([] if compressed else [y.items[1], y.items[0]])
+        base = 'bls12_381::fq::Fq' if g == 'G1' else 'bls12_381::fq2::Fq2'
+        kid = ('is_identity',)
+        fy, fny = freeze(y), freeze(('neg', y))
+        # the sort predicate in all its spellings: key -> polarity meaning "y > -y"
+        sort_keys = {('gt', fy, fny, base): True, ('lt', fny, fy, base): True, ('le', fy, fny, base): False, ('ge', fny, fy, base): False}
+        bad = []
+        present = tt.predicates(res)
+        sk = None
+        for k_ in present:
+            if k_ == kid:
+                continue
+            if k_ in sort_keys:
+                sk = k_
+            else:
+                bad.append('tests %r; the only data-dependent decisions are "is the identity" and y > -y in the coordinate field %s' % (k_, base.rsplit('::', 1)[1]))
+        if compressed and sk is None and not bad:
+            bad.append('no comparison of y with -y decides the sort flag')
+        if not compressed and sk is not None:
+            bad.append('an uncompressed encoder compares y with -y (uncompressed encodings never carry the sort flag)')
+        keys = [kid] + ([sk] if sk is not None else [])
         for pth, ret, _ in res:
-            labs = [c04.lab_name(l) for l in pth.labels]
-            bad_events = [e for e in pth.events if e[0] in ('writer-unrecognised', 'write-overflows-buffer') or e[0].startswith('assert-')]
-            rep.check(not bad_events, 'PANIC', '%s:encoder:path-assertions@%d' % (name, len(labs)), 'writes stay inside the buffer; assertions decided', 'events %s' % bad_events, where, construct=path)
+            ev = [e for e in pth.events if e[0].startswith('assert-') or e[0] == 'unwrap-fails' or (e[0] == 'write_be' and not e[2])]
+            if ev or (isinstance(ret, tuple) and ret and ret[0] == 'diverges'):
+                bad.append('a write can fail / panic: %s' % (ev[:2] or ret,))
+        for env, cons in ([] if bad else tt.table(res, keys)):
+            if len(cons) != 1:
+                bad.append('%r: %d paths' % (env, len(cons)))
+                continue
+            ret = cons[0][1]
             if not (isinstance(ret, Agg) and ret.items and isinstance(ret.items[0], Agg) and len(ret.items[0].items) == nbytes):
-                rep.fail('BYTES', '%s:encoder:length' % name, 'result is not a %d-byte array wrapper: %r' % (nbytes, ret), where, construct=path)
+                bad.append('result is not a %d-byte array wrapper' % nbytes)
                 continue
             by = ret.items[0].items
-            b0 = by[0]
-            writes = [e for e in pth.events if e[0] == 'write_be']
-            is_inf = labs and labs[0][0] == 'is_identity' and labs[0][1]
-            if is_inf:
-                seen_inf += 1
-                want0 = 0x40 | (0x80 if compressed else 0)
-                ok = isinstance(b0, Int) and b0.v == want0 and all(isinstance(z, Int) and z.v == 0 for z in by[1:]) and not writes
-                rep.check(ok, 'BYTES', '%s:encoder:infinity' % name, 'identity -> flag byte %#x followed by zeros' % want0,
-                          'identity encodes to first byte %r with %d coordinate writes' % (b0, len(writes)), where, construct=path)
-                continue
-            seen_fin += 1
-            got = [e[2] for e in writes]
-            okw = len(got) == len(want_writes) and all(isinstance(v, tuple) and v[0] == 'repr_of' and same(v[1], w) for v, w in zip(got, want_writes))
-            rep.check(okw, 'BYTES', '%s:encoder:field-order@%s' % (name, ''.join(str(int(l[1])) for l in labs)),
-                      'canonical big-endian coordinates in wire order %s' % want_writes, 'writes are %s, expected into_repr of %s in that order' % (got, want_writes), where, construct=path)
-            # flag bits
-            gts = [l for l in labs if l[0] in ('gt', 'lt', 'ge', 'le')]
             b7 = 1 if compressed else 0
-            if compressed:
-                okc = len(gts) == 1
-                sort = None
-                if okc:
-                    nm, tk, xx = gts[0]
-                    a, b_ = xx[1], xx[2]
-                    base = 'bls12_381::fq::Fq' if g == 'G1' else 'bls12_381::fq2::Fq2'
-                    if nm == 'gt' and same(a, y) and b_ == ('neg', y):
-                        sort = tk
-                    elif nm == 'lt' and a == ('neg', y) and same(b_, y):
-                        sort = tk
-                    elif nm == 'le' and same(a, y) and b_ == ('neg', y):
-                        sort = not tk
-                    elif nm == 'ge' and a == ('neg', y) and same(b_, y):
-                        sort = not tk
-                    okc = sort is not None and xx[3] == base
-                    rep.check(okc, 'WIRE', '%s:encoder:sort-comparison' % name, 'sort flag from y > -y on the whole coordinate (%s order)' % base.rsplit('::', 1)[1],
-                              'sort flag is decided by %s(%r, %r) on %s; must compare y with -y in the coordinate field %s (the order the decoder uses)' % (nm, a, b_, xx[3], base), where, construct=path)
-                else:
-                    rep.fail('WIRE', '%s:encoder:sort-comparison' % name, 'expected exactly one y vs -y comparison, found %d' % len(gts), where, construct=path)
-                want_bits = (b7 << 7) | ((1 if sort else 0) << 5)
-            else:
-                rep.check(not gts, 'WIRE', '%s:encoder:no-sort-flag' % name, 'uncompressed encodings never set the sort flag', 'uncompressed encoder compares y', where, construct=path)
-                want_bits = 0
-            okb = isinstance(b0, KBits) and (b0.mask & 0xe0) == 0xe0 and (b0.val & 0xe0) == want_bits
-            if isinstance(b0, Int):
-                okb = (b0.v & 0xe0) == want_bits
-            rep.check(okb, 'BYTES', '%s:encoder:flag-bits@%s' % (name, ''.join(str(int(l[1])) for l in labs)),
-                      'top three bits = %s' % format(want_bits >> 5, '03b'), 'first byte is %r, expected top bits %s' % (b0, format(want_bits >> 5, '03b')), where, construct=path)
-        rep.check(seen_inf == 1 and seen_fin == (2 if compressed else 1), 'BYTES', '%s:encoder:paths' % name, 'one identity path, %d finite path(s)' % (2 if compressed else 1),
-                  '%d identity / %d finite paths' % (seen_inf, seen_fin), where)
+            if env[kid]:
+                want0 = 0x40 | (b7 << 7)
+                if not (isinstance(by[0], Int) and by[0].v == want0 and all(isinstance(z, Int) and z.v == 0 for z in by[1:])):
+                    bad.append('identity encodes to first byte %r (expected %#x followed by zeros)' % (by[0], want0))
+                continue
+            sort = bool(sk is not None and (env[sk] == sort_keys[sk]))
+            want_bits = (b7 << 7) | ((1 if sort else 0) << 5)
+            for pos, z in enumerate(by):
+                w_src, w_j = order[pos // 48], pos % 48
+                if not (isinstance(z, EByte) and same(z.src, w_src) and z.j == w_j):
+                    bad.append('byte %d is %r, expected byte %d of the canonical representation of %s (wire order %s)' % (pos, z, w_j, w_src, order))
+                    break
+                if pos == 0:
+                    if not ((z.mask & 0xe0) == 0xe0 and (z.val & 0xe0) == want_bits and not (z.mask & 0x1f)):
+                        bad.append('first byte is %r for y > -y = %s, expected top bits %s over the coordinate bits' % (z, sort, format(want_bits >> 5, '03b')))
+                elif pos % 48 == 0:
+                    if not (z.mask == 0xe0 and z.val == 0):
+                        bad.append('byte %d carries extra bits: %r' % (pos, z))
+                elif z.mask or z.cleared:
+                    bad.append('byte %d is modified: %r' % (pos, z))
+        rep.check(not bad, 'BYTES', '%s:encoder' % name,
+                  '%d bytes; identity -> %#x then zeros; finite -> canonical big-endian coordinates in wire order (x before y, c1 before c0), top bits (%d, 0, %s)'
+                  % (nbytes, 0x40 | (0x80 if compressed else 0), 1 if compressed else 0, 'y > -y in the coordinate field\'s order' if compressed else '0'),
+                  '; '.join(sorted(set(bad))[:3]), where, construct=path)
     rep.floor('BYTES', 'encoders', n, 4)
 
 
